@@ -14,6 +14,7 @@ package lexer
 
 import (
 	"strings"
+	"unicode/utf8"
 
 	"github.com/paulsonkoly/calc/types/token"
 )
@@ -48,6 +49,11 @@ func (l *Lexer) Next() bool {
 		if c, s, err = l.nextRune(); err != nil {
 			l.Err = err
 			return false
+		}
+
+		if c == EOF && s > 0 {
+			// a NUL character in the text is not the end of input
+			c = utf8.RuneError
 		}
 
 		str := st(c)
